@@ -611,12 +611,9 @@ func convertValue(val reflect.Value, targetType reflect.Type) (reflect.Value, bo
 
 func fileFunc(v *Vue) func(*VueContext, string) (any, error) {
 	return func(ctx *VueContext, filename string) (any, error) {
-		// Resolve filename through the context's stack if it's a variable reference
-		if ctx != nil {
-			if val, ok := ctx.Stack().Resolve(filename); ok {
-				filename = fmt.Sprint(val)
-			}
-		}
+		// (filename is the argument's value: a variable named in the call has been resolved by
+		// then. It is not resolved a second time - a file name taken from the data, such as
+		// "user.path", must not be read as a path into the data.)
 
 		if v.templateFS == nil {
 			return "", fmt.Errorf("error loading file from nil fs: %s", filename)
@@ -631,12 +628,9 @@ func fileFunc(v *Vue) func(*VueContext, string) (any, error) {
 
 func jsonFileFunc(v *Vue) func(*VueContext, string) (any, error) {
 	return func(ctx *VueContext, filename string) (any, error) {
-		// Resolve filename through the context's stack if it's a variable reference
-		if ctx != nil {
-			if val, ok := ctx.Stack().Resolve(filename); ok {
-				filename = fmt.Sprint(val)
-			}
-		}
+		// (filename is the argument's value: a variable named in the call has been resolved by
+		// then. It is not resolved a second time - a file name taken from the data, such as
+		// "user.path", must not be read as a path into the data.)
 
 		if v.templateFS == nil {
 			return "", fmt.Errorf("error loading file from nil fs: %s", filename)
@@ -656,12 +650,9 @@ func jsonFileFunc(v *Vue) func(*VueContext, string) (any, error) {
 
 func yamlFileFunc(v *Vue) func(*VueContext, string) (any, error) {
 	return func(ctx *VueContext, filename string) (any, error) {
-		// Resolve filename through the context's stack if it's a variable reference
-		if ctx != nil {
-			if val, ok := ctx.Stack().Resolve(filename); ok {
-				filename = fmt.Sprint(val)
-			}
-		}
+		// (filename is the argument's value: a variable named in the call has been resolved by
+		// then. It is not resolved a second time - a file name taken from the data, such as
+		// "user.path", must not be read as a path into the data.)
 
 		if v.templateFS == nil {
 			return "", fmt.Errorf("error loading file from nil fs: %s", filename)
